@@ -88,7 +88,7 @@ func execRaw(args []string) string {
 // before: the answer must be the one a new decoder gives.
 func rawDecodeUsed(pre, b []byte, mode int) string {
 	var junk strings.Builder
-	old := decoder.New(bytes.NewReader(pre), decoder.WithIgnoreChecksum(), decoder.WithMesgDefListener(fragRec{&junk, false}))
+	old := decoder.New(bytes.NewReader(pre), decoder.WithIgnoreChecksum(), decoder.WithMesgDefListener(fragRec{&junk, false, nil}))
 	if old.Next() {
 		old.PeekFileId()
 		if mode == 1 {
@@ -96,7 +96,7 @@ func rawDecodeUsed(pre, b []byte, mode int) string {
 		}
 	}
 	var sb strings.Builder
-	rec := fragRec{&sb, false}
+	rec := fragRec{&sb, false, nil}
 	old.Reset(bytes.NewReader(b), decoder.WithMesgDefListener(rec), decoder.WithMesgListener(rec),
 		decoder.WithNoComponentExpansion(), decoder.WithIgnoreChecksum())
 	dec := old
